@@ -193,7 +193,7 @@ theorem d_array_view (h : α) (c : Impl.CoordTris α) (a : Impl.ArrTris α) :
     closed triangle. -/
 theorem d_point_mask_iff (px py : α) (t : Tri α) :
     Impl.pointMask px py t = true ↔ Impl.twiceSignedArea t ≠ 0 ∧ InTri t (px, py) :=
-  ⟨inTri_of_pointMask, fun ⟨hd, hp⟩ => pointMask_of_inTri hd hp⟩
+  ⟨inTri_of_pointMask, fun ⟨hd, hp⟩ => pointMask_of_inTri (p := (px, py)) hd hp⟩
 
 /-- (d) every shape (point, circle, square, polygon) is reported by a non-degenerate triangle that
     contains its reference point; `containing_indices` lists the index of every such triangle. -/
